@@ -21,13 +21,22 @@ ASSUMPTIONS = [
 ]
 
 
+def around_corpus(ctx, res, n):
+    """directed scenarios: every stored c20- scenario (a close() in a state that mattered once) cut at a random point and
+    continued with 2..13 random steps (c07.run_batch with a prefix, as the search does) - n scenarios over all of them"""
+    scns = [scn for _, scn in c07.corpus_scenarios("c20-") if "cmds" in scn]
+    outs = [c07.run_batch(ctx.model, ctx.rng.randrange(1 << 30), max(40, n // len(scns)), "c20", ("c20",), prefix_scn=scn, timeout_s=ctx.scale(6, 120))
+            for scn in scns]
+    c07.merge(res, ctx, outs, "c20", "C20")
+
+
 def run(ctx, res):
     CC.quiet()
     res.rule = ("scenarios as in C07 with a close() at a random point (6% per step) and up to 8 further steps: accepting/refusing/dropping "
                 "connections (= connection-closed notifications in any order), late replies, clock advances, cancels, new operations, a second "
-                "close(). non-trivial = a scenario in which close() had to close at least one broker client or abort a bootstrap; distinct by content hash.")
+                "close(); plus the stored c20- scenarios cut at a random point and continued with random steps. non-trivial = a scenario in which close() had to close at least one broker client or abort a bootstrap; distinct by content hash.")
     c07.run_corpus(ctx, res, ["c20-", "net-"], "c20", "C20")
-    c07.net_scenarios(ctx, res, ctx.scale(3000, 200000), "c20")
+    c07.net_scenarios(ctx, res, ctx.scale(1200, 200000), "c20")
     # the same stack, recorded as network-level events with the observations at BOTH boundaries, against the COMPOSED
     # model (client model x one broker-client model per instance, lean/Afkak/ClientCompose.lean)
     XC.stage(ctx, res, ctx.scale(350, 20000), "c20", corpus_prefixes=["c20-"])
@@ -36,6 +45,8 @@ def run(ctx, res):
     # discovery enabled (operations parked in fetch_api_versions at close)
     XB.stage(ctx, res, ctx.scale(160, 6000), "reentrant", ctx.scale(10, 240))
     XB.stage(ctx, res, ctx.scale(160, 6000), "discovery", ctx.scale(10, 240))
+    # quick tier: fewer blind scenarios above (one driver process each), directed ones here
+    around_corpus(ctx, res, ctx.scale(500, 20000))
 
 
 def search(ctx, res, broken):
